@@ -8,6 +8,7 @@ This is used to resolve *tables and layout constants* written in the source (str
 context table, codec tables); it is not used to run repository functions on input data.
 """
 import ast
+import collections
 import itertools
 import string as _string
 
@@ -35,7 +36,18 @@ PURE_FUNCS = {
     'range': range, 'enumerate': enumerate, 'zip': zip, 'sorted': sorted, 'list': list, 'tuple': tuple, 'dict': dict, 'set': set,
     'reversed': reversed, 'slice': slice, 'bool': bool, 'float': float, 'frozenset': frozenset,
     'itertools.product': itertools.product, 'product': itertools.product, 'str.maketrans': str.maketrans,
+    'itertools.combinations': itertools.combinations, 'combinations': itertools.combinations, 'itertools.permutations': itertools.permutations,
+    'itertools.chain': itertools.chain, 'chain': itertools.chain, 'itertools.combinations_with_replacement': itertools.combinations_with_replacement,
+    'divmod': divmod, 'round': round, 'isinstance': None, 'next': None,
+    'collections.defaultdict': collections.defaultdict, 'defaultdict': collections.defaultdict, 'collections.Counter': collections.Counter, 'Counter': collections.Counter,
 }
+PURE_FUNCS = {k: v for k, v in PURE_FUNCS.items() if v is not None}
+
+
+class LocalFn:
+    """a function defined inside an interpreted function (closure over the defining scope)"""
+    def __init__(self, fdef, scope):
+        self.fdef, self.scope = fdef, scope
 PURE_METHODS = {
     str: {'join', 'upper', 'lower', 'index', 'find', 'count', 'startswith', 'endswith', 'replace', 'strip', 'split', 'translate', 'format', 'zfill'},
     dict: {'get', 'keys', 'values', 'items', 'copy'},
@@ -70,6 +82,8 @@ class Evaluator:
                 return v
             if e.id in ('None', 'True', 'False'):
                 return {'None': None, 'True': True, 'False': False}[e.id]
+            if e.id in ('list', 'dict', 'set', 'int', 'str', 'tuple', 'float'):
+                return {'list': list, 'dict': dict, 'set': set, 'int': int, 'str': str, 'tuple': tuple, 'float': float}[e.id]
             raise Unfoldable(f'name {e.id}')
         if isinstance(e, ast.Attribute):
             d = dotted(e)
@@ -219,10 +233,20 @@ class Evaluator:
         kwargs = {k.arg: self.ev(k.value, env) for k in e.keywords if k.arg}
         if any(k.arg is None for k in e.keywords):
             raise Unfoldable('**kwargs')
+        if isinstance(e.func, ast.Name) and isinstance(env.get(e.func.id), LocalFn):
+            lf = env[e.func.id]
+            self.budget -= 5
+            return run_function(lf.fdef, args, kwargs, env=lf.scope, budget=max(0, self.budget))
+        if isinstance(e.func, ast.Lambda) or (isinstance(e.func, ast.Name) and isinstance(env.get(e.func.id), ast.Lambda)):
+            lam = e.func if isinstance(e.func, ast.Lambda) else env[e.func.id]
+            env2 = dict(env)
+            for a_, v_ in zip(lam.args.args, args):
+                env2[a_.arg] = v_
+            return self.ev(lam.body, env2)
         if d in PURE_FUNCS:
             try:
                 r = PURE_FUNCS[d](*args, **kwargs)
-                if isinstance(r, (range, zip, enumerate, reversed, itertools.product)):
+                if isinstance(r, (range, zip, enumerate, reversed, itertools.product, itertools.combinations, itertools.permutations, itertools.chain, itertools.combinations_with_replacement)):
                     r = list(r)
                 return r
             except Exception as ex:
@@ -231,7 +255,7 @@ class Evaluator:
             recv = self.ev(e.func.value, env)
             # containers built inside the interpreted function may be filled in place (the interpreter owns them; callers pass copies of inputs)
             for typ, names in MUTATORS.items():
-                if type(recv) is typ and e.func.attr in names:
+                if (type(recv) is typ or (typ is dict and isinstance(recv, dict))) and e.func.attr in names:
                     try:
                         return getattr(recv, e.func.attr)(*args, **kwargs)
                     except Exception as ex:
@@ -277,9 +301,9 @@ class _Continue(Exception):
     pass
 
 
-def run_function(fdef, args, kwargs=None, env=None, budget=20000):
+def run_function(fdef, args, kwargs=None, env=None, budget=20000, call_hook=None):
     """Interpret a pure function body (Assign / AugAssign / If / For / While-free / Return / Continue / Break / Expr / Pass)."""
-    ev = Evaluator({}, budget=budget)
+    ev = Evaluator({}, budget=budget, call_hook=call_hook)
     scope = dict(env or {})
     params = [a.arg for a in fdef.args.args]
     defaults = fdef.args.defaults
@@ -293,13 +317,33 @@ def run_function(fdef, args, kwargs=None, env=None, budget=20000):
     for k, v in (kwargs or {}).items():
         scope[k] = v
 
+    yields = []
+    is_gen = any(isinstance(n, (ast.Yield, ast.YieldFrom)) for st_ in fdef.body for n in _walk_own(st_))
+
     def block(stmts):
         for s in stmts:
             stmt(s)
 
     def stmt(s):
         ev.tick()
-        if isinstance(s, ast.Assign):
+        if isinstance(s, ast.Expr) and isinstance(s.value, ast.Yield):
+            yields.append(ev.ev(s.value.value, scope) if s.value.value is not None else None)
+        elif isinstance(s, ast.Expr) and isinstance(s.value, ast.YieldFrom):
+            yields.extend(list(ev.ev(s.value.value, scope)))
+        elif isinstance(s, (ast.FunctionDef,)):
+            scope[s.name] = LocalFn(s, scope)
+        elif isinstance(s, ast.While):
+            while ev.ev(s.test, scope):
+                ev.tick()
+                try:
+                    block(s.body)
+                except _Continue:
+                    continue
+                except _Break:
+                    break
+            else:
+                block(s.orelse)
+        elif isinstance(s, ast.Assign):
             v = ev.ev(s.value, scope)
             for t in s.targets:
                 ev.bind(t, v, scope)
@@ -339,5 +383,16 @@ def run_function(fdef, args, kwargs=None, env=None, budget=20000):
     try:
         block(fdef.body)
     except _Return as r:
-        return r.v
-    return None
+        return yields if is_gen else r.v
+    return yields if is_gen else None
+
+
+def _walk_own(node):
+    """nodes of a statement without descending into nested function / class definitions and lambdas"""
+    stack = [node]
+    while stack:
+        n = stack.pop()
+        yield n
+        for ch in ast.iter_child_nodes(n):
+            if not isinstance(ch, (ast.FunctionDef, ast.AsyncFunctionDef, ast.ClassDef, ast.Lambda)):
+                stack.append(ch)
